@@ -152,6 +152,26 @@ def standin_lme(tier, seed):
         d1 = np.diff(est) / np.diff(ages)
         if not np.allclose(d1, d1[0], rtol=1e-5, atol=1e-8):
             violations.append(dict(key=f"LME (random slope: {slope}): trajectory of {sid} is not a straight line in age", estimates=est.tolist()))
+        # ... for EVERY individual, in one call and again afterwards: the documented line (fixed + own random effects), the same
+        # answer when asked twice, and fixed effects untouched by the estimation
+        fe_before = np.array(m.parameters["fe_params"], dtype=float).copy()
+        sids = list(ref.random_effects)[:6]
+        with quiet():
+            est1 = m.estimate({sid_: ages for sid_ in sids}, ips)
+            est2 = m.estimate({sid_: ages for sid_ in sids[::-1]}, ips)
+        evals += 2
+        if not np.array_equal(fe_before, np.array(m.parameters["fe_params"], dtype=float)):
+            violations.append(dict(key=f"LME (random slope: {slope}): estimate() modifies the model's fixed effects",
+                                   before=fe_before.tolist(), after=np.array(m.parameters["fe_params"], dtype=float).tolist()))
+        for sid_ in sids:
+            re_i = [float(np.ravel(ips[sid_]["random_intercept"])[0])] + ([float(np.ravel(ips[sid_]["random_slope_age"])[0])] if slope else [0.0])
+            tn = (np.array(ages) - float(m.parameters["ages_mean"])) / float(m.parameters["ages_std"])
+            want = (fe_before[0] + re_i[0]) + (fe_before[1] + re_i[1]) * tn
+            a1, a2 = np.asarray(est1[sid_], dtype=float).ravel(), np.asarray(est2[sid_], dtype=float).ravel()
+            if not np.allclose(a1, want, rtol=1e-5, atol=1e-6) or not np.allclose(a2, a1, rtol=0, atol=1e-9):
+                violations.append(dict(key=f"LME (random slope: {slope}): estimates of several individuals are not each individual's own line, or change when asked again",
+                                       individual=sid_, first=a1.tolist(), again=a2.tolist(), documented=want.tolist()))
+                break
         samples.append(dict(random_slope=slope, individuals=len(ref.random_effects)))
     return dict(evaluations=evals, distinct_nontrivial=len(distinct),
                 rule="one evaluation = the personalised random effects of one training individual compared with statsmodels; "
